@@ -30,6 +30,7 @@ class Run:
         self.assumptions = []
         self.extra = {}
         self.known = {e["key"]: e for e in vlib.known_findings(prop)}
+        self.crashes = []            # (family, cfg, args) of driver runs that crashed reproducibly
 
     # ---- model checking ------------------------------------------------------------------
     def mc(self, module, cfg=None, env=None, timeout=900, workers=None, heap="8g", expect_ok=True):
@@ -61,6 +62,15 @@ class Run:
                                env=dict(os.environ, **(env or {})))
         except subprocess.TimeoutExpired:
             raise Infra("driver %s/%s timed out" % (fam.name, cfg))
+        if p.returncode == 4:
+            # the driver's crash handler fired (SIGSEGV/SIGBUS/SIGFPE/SIGABRT/terminate inside the library on a generated case):
+            # repeat once; a reproducible crash is a violation of the property under check, not an infrastructure failure
+            p2 = subprocess.run([exe] + [str(a) for a in args], timeout=timeout, stdout=subprocess.PIPE, stderr=subprocess.STDOUT, text=True,
+                                env=dict(os.environ, **(env or {})))
+            if p2.returncode == 4:
+                self.crashes.append((fam, cfg, [str(a) for a in args]))
+                return p2
+            p = p2
         if p.returncode not in ok_codes:
             raise Infra("driver %s/%s exited %d: %s" % (fam.name, cfg, p.returncode, p.stdout[-2000:]))
         return p
@@ -75,9 +85,10 @@ class Run:
             for tp in trace_paths:
                 with open(tp) as f:
                     for line in f:
-                        if line.strip():
+                        if line.strip() and not line.startswith('{"op":"CRASH"'):
                             out.write(line if line.endswith("\n") else line + "\n"); n += 1
         if n == 0:
+            if self.crashes: return []
             raise Infra("empty trace for %s" % module)
         e = {"TRACE": allp}
         if env: e.update(env)
@@ -131,7 +142,29 @@ class Run:
             self.violations.append((key, ev, labels, path))
 
     # ---- finish --------------------------------------------------------------------------------------
+    def _crash_violations(self):
+        for fam, cfg, args in self.crashes:
+            last, sig, n = None, "?", 0
+            tr = [a for a in args if a.endswith(".ndjson") and os.path.exists(a)]
+            for tp in tr[1:2] or tr[-1:]:
+                try:
+                    for ev in vlib.read_ndjson(tp):
+                        if ev.get("op") == "CRASH": sig = ev.get("sig")
+                        else: last = ev; n += 1
+                except Exception: pass
+            key = "crash:%s:%s:sig%s:after-%s" % (fam.name, cfg, sig, (last or {}).get("op", "start"))
+            if any(v[0] == key for v in self.violations): continue
+            cases = None
+            if tr and os.path.getsize(tr[0]) < 8 * 1024 * 1024:
+                with open(tr[0]) as f: lines = f.readlines()
+                cases = [json.loads(x) for x in lines[max(0, n - 2):n + 3] if x.strip()]
+            path = vlib.save_replay(self.prop, re.sub(r"[^A-Za-z0-9_.-]", "_", key)[:80],
+                                    {"property": self.prop, "key": key, "labels": ["crash"], "event": {"op": "CRASH", "cfg": cfg, "driver": fam.name, "sig": sig,
+                                     "events_before_crash": n, "last_event_op": (last or {}).get("op"), "cases_around_crash": cases}})
+            self.violations.append((key, {"op": "CRASH"}, ["crash"], path))
+
     def finish(self, rule, exhaustive_note=None):
+        self._crash_violations()
         for key, n in sorted(self.known_hits.items()):
             print("KNOWN-FINDING: property=%s %s [%s] (%d occurrences this run)" % (self.prop, self.known[key]["what"], key, n))
         for key, e in self.known.items():
